@@ -62,8 +62,8 @@ const (
 	// for an EOF the statement requires
 	readBound = 20 * time.Second
 	// pause between two client writes, to provoke separate TCP segments (never part of an oracle)
-	segPause = 1500 * time.Microsecond
-	pollStep = 300 * time.Microsecond
+	segPause = 500 * time.Microsecond
+	pollStep = 150 * time.Microsecond
 )
 
 // ---------------------------------------------------------------------------- counters (evidence extras)
@@ -922,6 +922,26 @@ func waitReaders(want, wantInRead int) bool {
 }
 
 // ---------------------------------------------------------------------------- misc
+
+var (
+	opMu    sync.Mutex
+	opTotal = map[string]time.Duration{}
+	opN     = map[string]int{}
+)
+
+// opTime (development aid, VERIF_C15_DEBUG=1): accumulated wall time per step kind.
+func opTime(kind string, t0 time.Time) {
+	if os.Getenv("VERIF_C15_DEBUG") == "" {
+		return
+	}
+	opMu.Lock()
+	opTotal[kind] += time.Since(t0)
+	opN[kind]++
+	if n := opN[kind]; n%200 == 0 {
+		fmt.Fprintf(os.Stderr, "OPTIME %s n=%d avg=%v\n", kind, n, opTotal[kind]/time.Duration(n))
+	}
+	opMu.Unlock()
+}
 
 // slowLog (development aid, VERIF_C15_DEBUG=1): report cases that took more than a second.
 func slowLog(sub string, c any) func() {
